@@ -20,6 +20,22 @@ type world interface {
 	exec(r *hx.Run, f []string) (line string, ans string)
 	// nontrivial reports whether the history so far is non-trivial by the rule of this container.
 	nontrivial() bool
+	// state prints the concrete (white-box, read by reflection) state of the implementation; it is
+	// appended to the answer of every request, so model and code are compared after every operation.
+	state() string
+}
+
+// withState appends the white-box state to an answer ("bad-op" stays bare).
+func withState(ans string, w world) string {
+	if ans == "bad-op" || w == nil {
+		return ans
+	}
+	st := "?"
+	if p := hx.Safely(func() { st = w.state() }); p != "" {
+		st = "state-panic"
+	}
+
+	return ans + " | " + st
 }
 
 func newWorld(kind string, f []string) world {
@@ -40,6 +56,8 @@ func newWorld(kind string, f []string) world {
 		return newRing(f)
 	case "stack":
 		return newStack(f)
+	case "cb":
+		return newCb(f)
 	}
 
 	return nil
@@ -69,7 +87,7 @@ func runCase(r *hx.Run, sub uint64, ops []string) {
 				ans = "panic"
 			} else if w != nil {
 				worlds[kind] = w
-				ans = "ok"
+				ans = withState("ok", w)
 			}
 		} else if w := worlds[kind]; w != nil {
 			if p := hx.Safely(func() { line, ans = w.exec(r, f[1:]) }); p != "" {
@@ -77,6 +95,7 @@ func runCase(r *hx.Run, sub uint64, ops []string) {
 				fail(r, kind, f[1], "panic", fmt.Sprintf("%s panicked: %s", op, p))
 			}
 			line = kind + " " + line
+			ans = withState(ans, w)
 		}
 		r.Line(line, ans)
 		r.Count("op:" + kind + "." + f[1])
@@ -136,6 +155,9 @@ func main() {
 	for _, c := range corpus {
 		runCase(r, 0, c)
 	}
+	for _, c := range cbCorpus {
+		runCase(r, 0, c)
+	}
 	n := 2000 * r.Scale
 	length := 40
 	if r.Tier == "thorough" {
@@ -150,6 +172,7 @@ func main() {
 			}
 		}
 	}
+	runCbCases(r, 48*r.Scale)
 	r.Finish()
 }
 
